@@ -88,6 +88,22 @@ Proof.
 Qed.
 Print Assumptions C18_attr_conservation.
 
+(* numeric attribute values: whatever numeric QVariant type carries the integer z (int, uint, qlonglong,
+   qulonglong, double, float; within the range of the type, |z| <= 2^53) the value is intact - the number z
+   under extra for an ordinary name; for a routed name (integer types: QVariant::toString gives the digits)
+   the decimal text of z in its slot, which identifies z: 4294967295 held by a uint is neither -1 nor "-1" *)
+Theorem C18_numeric_attribute_intact : forall qtver eid m pre k t z post,
+  s_attrs m = pre ++ (k, num_value t z) :: post -> has_key k post = false -> num_in_range t z = true ->
+  (is_routed k = false -> get2 (src_event_members qtver eid m) k_extra k = Some (JNum z))
+  /\ (int_typed t = true -> forall sl name, In (sl, (name, k)) spec_routes ->
+        slot_get (src_event_members qtver eid m) sl name = Some (JStr (num_chars z))
+        /\ get2 (src_event_members qtver eid m) k_extra k = None).
+Proof. exact (numeric_attribute_intact _ _). Qed.
+Print Assumptions C18_numeric_attribute_intact.
+Theorem C18_number_text_identifies_value : forall a b, num_chars a = num_chars b -> a = b.
+Proof. exact num_chars_inj. Qed.
+Print Assumptions C18_number_text_identifies_value.
+
 (* The full statement of the property's last sentence would be, for EVERY value v (lists, maps and null
    included) of a routed name:
      forall qtver eid m pre k v post sl name, s_attrs m = pre ++ (k, v) :: post -> has_key k post = false ->
@@ -140,4 +156,18 @@ Example C18_nonvacuous :
   /\ slot_get (src_event_members [53] (id128_hex 255) ex_smsg) SDevice k_name = Some (JStr [98; 111; 120])
   /\ get2 (src_event_members [53] (id128_hex 255) ex_smsg) k_extra [117] = Some (JNum 3%Z)
   /\ look k_logger (src_event_members [53] (id128_hex 255) ex_smsg) = Some (JStr [110; 101; 116]).
+Proof. vm_compute. repeat split. Qed.
+(* non-vacuity of the numeric types: UINT_MAX held by a uint under an ordinary and under a routed name *)
+Definition ex_num_smsg : smsg := {|
+  s_msg := {| mtype := 0; mtext := [104]; mfmt := None; mfile := None; mfunc := None; mcat := None;
+              mline := 1%Z; mtime := []; mtid := 1%Z;
+              mattrs := [([117], num_value TUInt 4294967295%Z); (k_appname, num_value TUInt 2147483648%Z);
+                         ([100], num_value TDouble 9007199254740992%Z)] |};
+  s_time_ms := 0%Z |}.
+Example C18_numeric_nonvacuous :
+  num_in_range TUInt 4294967295%Z = true /\ int_typed TUInt = true /\ int_typed TDouble = false
+  /\ get2 (src_event_members [53] (id128_hex 1) ex_num_smsg) k_extra [117] = Some (JNum 4294967295%Z)
+  /\ get2 (src_event_members [53] (id128_hex 1) ex_num_smsg) k_extra [100] = Some (JNum 9007199254740992%Z)
+  /\ slot_get (src_event_members [53] (id128_hex 1) ex_num_smsg) STag k_app_name = Some (JStr [50;49;52;55;52;56;51;54;52;56])
+  /\ prop_c18_b ex_num_smsg (sentry_format src_sentry_cfg [53] (id128_hex 1) ex_num_smsg) = true.
 Proof. vm_compute. repeat split. Qed.
